@@ -89,6 +89,13 @@ func (w *World) assume(s string) {
 	w.events = append(w.events, event{assert: s})
 }
 
+// assumeGlobal adds a fact that holds on every path and mentions no bound variable (literal facts, definitional
+// axioms of generator-introduced functions): it is neither guarded by the current path condition nor closed over binders.
+func (w *World) assumeGlobal(s string) {
+	w.asserts = append(w.asserts, s)
+	w.events = append(w.events, event{assert: s})
+}
+
 func basicKind(t types.Type) (types.BasicKind, bool) {
 	b, ok := t.Underlying().(*types.Basic)
 	if !ok {
@@ -271,19 +278,19 @@ func (w *World) strLit(s string) Term {
 	name := fmt.Sprintf("strlit_%d", len(w.strLits))
 	w.strLits[s] = name
 	w.decls = append(w.decls, fmt.Sprintf("(declare-const %s Str)", name))
-	w.assume(fmt.Sprintf("(= (strlen %s) %d)", name, len(s)))
+	w.assumeGlobal(fmt.Sprintf("(= (strlen %s) %d)", name, len(s)))
 	// distinctness from other literals
 	for o, on := range w.strLits {
 		if o != s {
-			w.assume(fmt.Sprintf("(not (= %s %s))", name, on))
+			w.assumeGlobal(fmt.Sprintf("(not (= %s %s))", name, on))
 		}
 	}
 	if s == "" {
-		w.assume(fmt.Sprintf("(forall ((x Str)) (! (=> (= (strlen x) 0) (= x %s)) :pattern ((strlen x))))", name))
+		w.assumeGlobal(fmt.Sprintf("(forall ((x Str)) (! (=> (= (strlen x) 0) (= x %s)) :pattern ((strlen x))))", name))
 	}
 	if len(s) <= 16 {
 		for i := 0; i < len(s); i++ {
-			w.assume(fmt.Sprintf("(= (sat %s %d) %d)", name, i, s[i]))
+			w.assumeGlobal(fmt.Sprintf("(= (sat %s %d) %d)", name, i, s[i]))
 		}
 	}
 	return T(name, "Str")
@@ -294,7 +301,7 @@ func (w *World) chr(x Term) Term {
 	if !w.pureDecl["chr"] {
 		w.pureDecl["chr"] = true
 		w.decls = append(w.decls, "(declare-fun chr (Int) Str)")
-		w.assume("(forall ((b Int)) (! (=> (and (<= 0 b) (< b 128)) (and (= (strlen (chr b)) 1) (= (sat (chr b) 0) b))) :pattern ((chr b))))")
+		w.assumeGlobal("(forall ((b Int)) (! (=> (and (<= 0 b) (< b 128)) (and (= (strlen (chr b)) 1) (= (sat (chr b) 0) b))) :pattern ((chr b))))")
 	}
 	return T(fmt.Sprintf("(chr %s)", x.S), "Str")
 }
@@ -466,7 +473,7 @@ func (w *World) selemFn(elemT types.Type) string {
 	if !w.pureDecl[name] {
 		w.pureDecl[name] = true
 		w.decls = append(w.decls, fmt.Sprintf("(declare-fun %s ((Array Int (Array Int %s)) Slice Int) %s)", name, srt, srt))
-		w.assume(fmt.Sprintf("(forall ((E (Array Int (Array Int %s))) (s Slice) (k Int)) (! (= (%s E s k) (select (select E (sbase s)) (+ (soff s) k))) :pattern ((%s E s k))))", srt, name, name))
+		w.assumeGlobal(fmt.Sprintf("(forall ((E (Array Int (Array Int %s))) (s Slice) (k Int)) (! (= (%s E s k) (select (select E (sbase s)) (+ (soff s) k))) :pattern ((%s E s k))))", srt, name, name))
 	}
 	return name
 }
@@ -477,7 +484,7 @@ func (w *World) subRef(parent types.Type, i int, ref Term) Term {
 	if !w.pureDecl[name] {
 		w.pureDecl[name] = true
 		w.decls = append(w.decls, fmt.Sprintf("(declare-fun %s (Int) Int)", name))
-		w.assume(fmt.Sprintf("(forall ((r Int)) (! (=> (not (= r 0)) (not (= (%s r) 0))) :pattern ((%s r))))", name, name))
+		w.assumeGlobal(fmt.Sprintf("(forall ((r Int)) (! (=> (not (= r 0)) (not (= (%s r) 0))) :pattern ((%s r))))", name, name))
 	}
 	return T(fmt.Sprintf("(%s %s)", name, ref.S), "Int")
 }
@@ -491,7 +498,7 @@ func (w *World) supdFn(elemT types.Type) string {
 		w.pureDecl[name] = true
 		hs := "(Array Int (Array Int " + srt + "))"
 		w.decls = append(w.decls, fmt.Sprintf("(declare-fun %s (%s Slice Int %s) %s)", name, hs, srt, hs))
-		w.assume(fmt.Sprintf("(forall ((E %s) (s Slice) (i Int) (v %s) (s2 Slice) (j Int)) (! (= (%s (%s E s i v) s2 j) (ite (and (= (sbase s2) (sbase s)) (= (+ (soff s2) j) (+ (soff s) i))) v (%s E s2 j))) :pattern ((%s (%s E s i v) s2 j))))", hs, srt, sel, name, sel, sel, name))
+		w.assumeGlobal(fmt.Sprintf("(forall ((E %s) (s Slice) (i Int) (v %s) (s2 Slice) (j Int)) (! (= (%s (%s E s i v) s2 j) (ite (and (= (sbase s2) (sbase s)) (= (+ (soff s2) j) (+ (soff s) i))) v (%s E s2 j))) :pattern ((%s (%s E s i v) s2 j))))", hs, srt, sel, name, sel, sel, name))
 	}
 	return name
 }
